@@ -11,6 +11,9 @@ from .. import alphabet as A, canon, ops, report
 
 ID = "C06"
 ROWS = [(1, [0, 0], 1), (2, [1, 1], 0), (1, [1, 0], 0), (2, [0, 1], 1)]
+# rewards actually passed for the policies that take real rewards: whole numbers (Python ints) on the first two rows,
+# fractions on the others - a first chunk of whole numbers gives an integer history that later chunks must widen
+REAL_REWARD = {0: 3, 1: 0, 2: 0.75, 3: 2.25}
 QUERIES = [[0, 0], [1, 1], [1, 0], [2, 2]]
 
 
@@ -41,11 +44,13 @@ def shards(tier, seed):
     return A.heavy_first(out)
 
 
-def reward(ln, r):
+def reward(ln, r, row=None):
     if ln == "tsb":
         return r * 2            # with the binarizer r >= 2 (not idempotent on {0,1}): 0 -> 0, 2 -> 1
     if ln == "ts":
         return r
+    if row is not None:
+        return REAL_REWARD[ROWS.index(tuple(row) if not isinstance(row, tuple) else row)]
     return r * 2.5 + 0.5            # exactly representable, partial sums exact
 
 
@@ -54,7 +59,7 @@ def train(cfg, ln, seq, comp):
     mab = ops.build(cfg)
     for i, (a, b) in enumerate(comp):
         rows = seq[a:b]
-        op = ["fit" if i == 0 else "partial_fit", [r[0] for r in rows], [reward(ln, r[2]) for r in rows],
+        op = ["fit" if i == 0 else "partial_fit", [r[0] for r in rows], [reward(ln, r[2], (r[0], r[1], r[2])) for r in rows],
               None if cf else [list(r[1]) for r in rows]]
         ops.apply(mab, op)
     return mab
